@@ -190,3 +190,66 @@ func VC01_MultiReadAt() {
 	}
 	vsym.Reach("end")
 }
+
+// VC01_Coverage (on the shipped test image, unsigned and with a certificate table appended):
+// changing one byte changes the digest if the position is covered (section data: position symbolic
+// per 512-byte window) and does not change it if the position is excluded (each byte of the
+// checksum field; sampled bytes of the certificate table).  Decided through the hash model: outputs are equal iff the hashed strings are equal.
+func VC01_Coverage() {
+	img := append([]byte{}, vsym.Fixture("authenticode/testdata/test.pecoff")...)
+	signedVariant := vsym.Pick("with.table", 2) == 1
+	if signedVariant {
+		p0, err := Parse(bytes.NewReader(img))
+		vsym.Assert(err == nil, "fixture parses")
+		vsym.Assert(p0.AppendSignature(vsym.BytesN("sig", 40)) == nil, "append")
+		img = p0.Bytes()
+	}
+	e := int(uint32(img[0x3c]) | uint32(img[0x3d])<<8)
+	ck := e + 24 + 64
+	dd4 := e + 24 + 144
+	sh := 1024
+	bodyEnd := 3825
+	p, err := Parse(bytes.NewReader(img))
+	vsym.Assert(err == nil, "image parses")
+	before := p.Hash(crypto.SHA256)
+
+	mut := append([]byte{}, img...)
+	var pos int
+	covered := true
+	switch vsym.Pick("class", 4) {
+	case 0: // section data
+		w := vsym.Pick("window", 5)
+		pos = vsym.Int("pos")
+		vsym.Assume(vsym.And(pos >= sh+512*w, pos < sh+512*(w+1)))
+	case 1: // checksum field
+		pos = ck + vsym.Pick("ck.byte", 4)
+		covered = false
+	case 2:
+		// (the directory entry is skipped by the hash but determines which bytes form the table, so a
+		// single-byte change of it leaves the well-formed images; its exclusion is decided by
+		// VC01_DigestEqualsSpec where the entry is symbolic)
+		return
+	case 3: // certificate table
+		if !signedVariant {
+			return
+		}
+		tl := len(img) - ((bodyEnd + 7) &^ 7)
+		pos = ((bodyEnd + 7) &^ 7) + vsym.Pick("table.byte", tl/4)*4
+		covered = false
+	}
+	v := vsym.U8("value")
+	vsym.Assume(v != img[pos])
+	mut[pos] = v
+	q, err := Parse(bytes.NewReader(mut))
+	vsym.Assert(err == nil, "changed image parses")
+	after := q.Hash(crypto.SHA256)
+	same := bytes.Equal(before, after)
+	if covered {
+		vsym.Assert(!same, "changing a covered byte changes the digest")
+		vsym.Reach("covered")
+	} else {
+		vsym.Assert(same, "changing only an excluded byte does not change the digest")
+		vsym.Reach("excluded")
+	}
+	vsym.Reach("end")
+}
